@@ -111,8 +111,10 @@ func (l *Lexer) NextToken() token.Token {
 
 		if l.char == '-' && l.peekChar() == '-' {
 			if !l.skipComment() {
-				// the comment is never closed
-				return l.illegalToken()
+				// the comment is never closed: what is wrong are the
+				// braces that open it, not the end of the input
+				tok.Type = token.ILLEGAL
+				return tok
 			}
 
 			return l.NextToken()
